@@ -35,9 +35,9 @@ theorem cex_sticky_format :
 date of the first -/
 theorem cex_skipping_drops_a_dated_line :
     (lpRun flpcfg (LP.init flpcfg)
-      (([[50, 48, 49, 57, 45, 48, 49, 45, 48, 50, 32, 48, 51, 58, 48, 52, 58, 48, 53, 32, 97, 10]] ++
-        List.replicate 10 [73, 78, 70, 79, 58, 32, 120, 10] ++
-        [[50, 48, 49, 57, 45, 48, 49, 45, 48, 50, 32, 48, 51, 58, 48, 57, 58, 48, 48, 32, 122, 10]]).map
+      ((([[50, 48, 49, 57, 45, 48, 49, 45, 48, 50, 32, 48, 51, 58, 48, 52, 58, 48, 53, 32, 97, 10]] : List Bytes) ++
+        List.replicate 10 ([73, 78, 70, 79, 58, 32, 120, 10] : Bytes) ++
+        [([50, 48, 49, 57, 45, 48, 49, 45, 48, 50, 32, 48, 51, 58, 48, 57, 58, 48, 48, 32, 122, 10] : Bytes)]).map
         (lineAns gadj colFmts fnow))).getLast? = some (.carried (some ⟨2019, 1, 2, 3, 4, 5, 0, .dflt⟩)) := by decide +kernel
 
 /-- **F69, lower-case pm**: `1/2/2019 03:04:05 pm` — the P format's expression matches, its layout `PM` does not; the 24-hour
